@@ -315,7 +315,7 @@ class Ownership:
         if how == 'raw':
             if f.name == '__new__':
                 return CONSTR
-            if f.name == '_create_from_bitstype':
+            if f.name in self.m.promoters:
                 return VIEWK
         return PRIVATE
 
@@ -703,10 +703,10 @@ def rule_A4(ctx):
                     if eff:
                         problems.append((cs.node, f"calls {cn[0]} on it, which changes its receiver ({sorted(eff)[0][2]})"))
             public = not f.name.startswith('_') or (f.name.startswith('__') and f.name.endswith('__'))
-            if public and f.name != '_create_from_bitstype':
+            if public and f.name not in m.promoters:
                 top_views = [x for x in f.node.body if isinstance(x, ast.Assign) and len(x.targets) == 1 and isinstance(x.targets[0], ast.Name)
                              and x.targets[0].id == v and isinstance(x.value, ast.Call) and isinstance(x.value.func, ast.Attribute)
-                             and x.value.func.attr == '_create_from_bitstype']
+                             and x.value.func.attr in m.promoters]
                 only_view = all(b[0] == 'view' or (b[0] == 'param' and top_views) for b in loc[v])
                 for x in own_walk(f.node):
                     if isinstance(x, ast.Return) and isinstance(x.value, ast.Name) and x.value.id == v and only_view:
